@@ -288,7 +288,10 @@ func mergeCryptoDynMap(ab *cmdsPair, name, prefix string) {
 func mergeCryptoCommon(ab *cmdsPair, al, bl []*cmd) []*cmd {
 	key := func(c *cmd) [2]string {
 		tokens := strings.Split(c.parsed, " ")
-		return [2]string(tokens[4:6])
+		// IOS: "crypto map $NAME $SEQ ipsec-isakmp" has only five words.
+		var k [2]string
+		copy(k[:], tokens[4:])
+		return k
 	}
 	var add []*cmd
 	m := make(map[[2]string]*cmd)
